@@ -29,6 +29,9 @@ type c07Case struct {
 	Entries []ircgen.Entry `json:"entries"`
 	// SnapshotAfter: positions (number of applied entries) after which the restarted node snapshots and restores
 	SnapshotAfter []int `json:"snapshot_and_restore_after_n_entries,omitempty"`
+	// JSON: the node runs with -pre1.0_protobuf=false (the recover handler has a branch of its own
+	// for rewriting the crashing entry in the legacy encoding)
+	JSON bool `json:"json_encoding,omitempty"`
 }
 
 type c07ChildSpec struct {
@@ -36,6 +39,7 @@ type c07ChildSpec struct {
 	SnapshotAfter []int  `json:"snapshot_after"`
 	DumpFile      string `json:"dump_file"`
 	HorizonNano   int64  `json:"horizon_nano"`
+	JSON          bool   `json:"json"`
 }
 
 type c07Dump struct {
@@ -61,7 +65,7 @@ func TestVerifC07Child(t *testing.T) {
 		fmt.Println("childerror", err)
 		os.Exit(3)
 	}
-	env := newFsmEnv(spec.Dir, 0, true)
+	env := newFsmEnv(spec.Dir, 0, !spec.JSON)
 	first, _ := env.logstore.FirstIndex()
 	last, _ := env.logstore.LastIndex()
 	applied := 0
@@ -198,6 +202,7 @@ func c07Execute(c *c07Case, rt *rapid.T, base string) (fail *vh.Failure, labels 
 			}
 			c.Entries = append(c.Entries, e)
 		}
+		c.JSON = rapid.IntRange(0, 3).Draw(rt, "json") == 0
 		if rapid.Bool().Draw(rt, "withsnapshot") && len(c.Entries) > 2 {
 			ns := rapid.IntRange(1, 2).Draw(rt, "nsnapshots")
 			for k := 0; k < ns; k++ {
@@ -218,13 +223,13 @@ func c07Execute(c *c07Case, rt *rapid.T, base string) (fail *vh.Failure, labels 
 	nodeDir := filepath.Join(dir, "node")
 	os.MkdirAll(filepath.Join(nodeDir, "env0"), 0755)
 	raftlogPath := filepath.Join(nodeDir, "env0", "raftlog")
-	ls, err := raftstore.NewLevelDBStore(raftlogPath, false, true)
+	ls, err := raftstore.NewLevelDBStore(raftlogPath, false, !c.JSON)
 	if err != nil {
 		return vh.Failf("harness", "open raftlog: %v", err), nil, false
 	}
 	var logs []*raft.Log
 	for _, e := range c.Entries {
-		logs = append(logs, toLog(e, true))
+		logs = append(logs, toLog(e, !c.JSON))
 	}
 	if err := ls.StoreLogs(logs); err != nil {
 		return vh.Failf("harness", "StoreLogs: %v", err), nil, false
@@ -233,7 +238,10 @@ func c07Execute(c *c07Case, rt *rapid.T, base string) (fail *vh.Failure, labels 
 
 	dumpFile := filepath.Join(dir, "dump.json")
 	specFile := filepath.Join(dir, "spec.json")
-	spec := c07ChildSpec{Dir: nodeDir, SnapshotAfter: nil, DumpFile: dumpFile, HorizonNano: c.Entries[0].Nano - 1}
+	spec := c07ChildSpec{Dir: nodeDir, SnapshotAfter: nil, DumpFile: dumpFile, HorizonNano: c.Entries[0].Nano - 1, JSON: c.JSON}
+	if c.JSON {
+		lab["c07:json-encoding"] = true
+	}
 	runChild := func() (int, string) {
 		sb, _ := json.Marshal(spec)
 		os.WriteFile(specFile, sb, 0644)
@@ -275,7 +283,7 @@ func c07Execute(c *c07Case, rt *rapid.T, base string) (fail *vh.Failure, labels 
 			}
 		}
 		// inspect the durable log
-		ls, err := raftstore.NewLevelDBStore(raftlogPath, false, true)
+		ls, err := raftstore.NewLevelDBStore(raftlogPath, false, !c.JSON)
 		if err != nil {
 			return vh.Failf("harness", "reopen raftlog: %v", err), keys2(lab), false
 		}
